@@ -379,7 +379,68 @@ def mod_sampling(ctx):
                 out.append((f"C14:modulated-length:{'eom-open' if ch.in_eom() else 'std'}", f"{name}: {len(cs.amp)} vs duration with fall time {exp}"))
             if not np.all(np.isfinite(np.asarray(cs.amp.as_array(detach=True)))):
                 out.append(("C14:modulated-non-finite", name))
+        out += _sequence_level_values(ctx, seq, ms)
         return out
+
+
+def _arr(x):
+    return np.asarray(x.as_array(detach=True) if hasattr(x, "as_array") else x, dtype=float)
+
+
+def _sequence_level_values(ctx, seq, ms):
+    """What sample(seq, modulation=True) holds is the channel's own filter applied to what was scheduled: Channel.modulate (decided
+    by the grid above) of the plain samples - everywhere for a channel without EOM blocks, and away from every EOM block (by more
+    than the reach of either filter and of the buffers) for a channel with blocks."""
+    from pulser.sampler import sample
+
+    out = []
+    try:
+        ss = sample(seq)
+    except Exception:
+        return out
+    for name, ch in ctx.post.channels.items():
+        p = ctx.world.params(ch.ch_id)
+        if not p["bw"] or name not in ms.channel_samples or name not in ss.channel_samples or not ch.slots:
+            continue
+        ch_obj = seq.declared_channels[name]
+        lib_a, lib_d = _arr(ms.channel_samples[name].amp), _arr(ms.channel_samples[name].det)
+        plain_a, plain_d = _arr(ss.channel_samples[name].amp), _arr(ss.channel_samples[name].det)
+        if len(plain_a) == 0:
+            continue
+        try:
+            ref_a, ref_d = _arr(ch_obj.modulate(plain_a)), _arr(ch_obj.modulate(plain_d, keep_ends=True))
+        except Exception:
+            continue
+        n = min(len(lib_a), len(ref_a))
+        peak_a, peak_d = max(1e-9, float(np.abs(plain_a).max())), max(1e-9, float(np.abs(plain_d).max()))
+        if not ch.eom_blocks:
+            ctx.act["sequence_level_values:no-eom"] += 1
+            if np.abs(lib_a[:n] - ref_a[:n]).max() > 1e-9 * max(1.0, peak_a):
+                out.append(("C14:sequence-modulation-differs-from-the-channel-filter:amp", f"{name}: max diff {np.abs(lib_a[:n] - ref_a[:n]).max():.4g} (peak {peak_a:.4g})"))
+            if np.abs(lib_d[:n] - ref_d[:n]).max() > 1e-9 * max(1.0, peak_d):
+                out.append(("C14:sequence-modulation-differs-from-the-channel-filter:det", f"{name}: max diff {np.abs(lib_d[:n] - ref_d[:n]).max():.4g} (peak {peak_d:.4g})"))
+            continue
+        # with EOM blocks: amplitude only, away from every block
+        rise, erise = p["rise"], (p["eom"]["rise"] if p["eom"] else 0)
+        reach = 3 * max(rise, erise) + 2 * erise + (p["eom"]["buffer"] if p["eom"] else 0) + 2 * rise + 8
+        far = np.ones(n, dtype=bool)
+        std_a = plain_a.copy()
+        for b in ch.eom_blocks:
+            lo, hi = b[3], (ch.end if b[4] is None else b[4])
+            far[max(0, lo - reach): min(n, hi + reach)] = False
+            std_a[lo:hi] = 0.0  # what is played inside a block goes through the EOM's filter, not the channel's
+        try:
+            ref_a = _arr(ch_obj.modulate(std_a))
+        except Exception:
+            continue
+        if far.any() and np.abs(plain_a).max() > 0:
+            ctx.act["sequence_level_values:away-from-eom-blocks"] += 1
+            d = float(np.abs(lib_a[:n] - ref_a[:n])[far].max())
+            if d > 1e-4 * max(1.0, peak_a):
+                t = int(np.flatnonzero(far)[np.argmax(np.abs(lib_a[:n] - ref_a[:n])[far])])
+                out.append(("C14:ordinary-pulse-away-from-eom-blocks-not-filtered-by-the-channel:amp",
+                            f"{name}: at t={t} (EOM blocks {[(b[3], b[4]) for b in ch.eom_blocks]}, more than {reach} ns away) output {lib_a[t]:.5g}, channel filter gives {ref_a[t]:.5g}"))
+    return out
 
 
 MONITORS = [mod_sampling]
